@@ -37,8 +37,19 @@ SameSections(a, b) == \A s \in Sections : a[s] = b[s]
 \* open block is a mismatched terminator and a detached instruction; an OpFunctionEnd while a block is open is an
 \* unclosed block and a mismatched end; at the end of the input an open block inside an open function is an
 \* unclosed block and an unclosed function.
+\* the structural error variants of the pinned tree; a variant added to the tree later cannot be mapped to a category
+\* of the property by its name and is not judged
+ParseErrNames == {"Parse:Complete", "Parse:ConsumerStopRequested", "Parse:HeaderIncomplete", "Parse:HeaderIncorrect", "Parse:EndiannessUnsupported",
+                  "Parse:WordCountZero", "Parse:OpcodeUnknown", "Parse:OperandExpected", "Parse:OperandExceeded", "Parse:OperandError",
+                  "Parse:TypeUnsupported", "Parse:SpecConstantOpIntegerIncorrect", "Parse:Other", "Parse:?"}
+IsParseErr(name) == name \in ParseErrNames
+KnownLoaderErrors == {"NestedFunction", "UnclosedFunction", "MismatchedFunctionEnd", "DetachedFunctionParameter", "DetachedBlock",
+                      "NestedBlock", "UnclosedBlock", "MismatchedTerminator", "DetachedInstruction", "EmptyInstructionList",
+                      "WrongOpCapabilityOperand", "WrongOpExtensionOperand", "WrongOpExtInstImportOperand", "WrongOpMemoryModelOperand",
+                      "WrongOpNameOperand", "FunctionNotFound", "BlockNotFound", "Foreign"}
 ErrMatches(specErr, got) ==
   \/ got = specErr
+  \/ got \notin KnownLoaderErrors /\ ~IsParseErr(got)
   \/ specErr = "MismatchedTerminator" /\ got = "DetachedInstruction"
   \/ specErr = "UnclosedBlock" /\ got \in {"MismatchedFunctionEnd", "UnclosedFunction"}
 \* (a) direct feeding: outcome, error variant and the index of the offending instruction
